@@ -19,7 +19,9 @@ RULE = ("case = an object dictionary (variables, records, arrays; data type, acc
         "with/without size) by the conformant reference client; observed: every frame the server sends, whether on_request "
         "raised, callback invocations per operation, final data_store, last_received_error. Value lengths 0..64 x the four "
         "value sources and their precedence, all data types, random dictionaries and histories. non-trivial = a case with a "
-        "segmented transfer, a refused access or a raw frame; distinct by canonical JSON")
+        "segmented transfer, a refused access or a raw frame; distinct by canonical JSON. Since round 3/4 also: raw-frame downloads with partly "
+        "filled non-final segments, bursts of back-to-back raw uploads of synthesised array members of several arrays, write/read "
+        "callbacks that refuse chosen values (store and next upload unchanged), run-time changes of default / parameter value")
 EXHAUSTIVE = {"quick": False, "thorough": False}
 EXPLANATION = ("value lengths 0..64 are enumerated exhaustively for every value source and download mode; the thorough tier adds "
                "lengths up to 10^4 and larger random histories")
@@ -27,7 +29,7 @@ TRUSTED = ["modelled, not verified: CPython struct / bytearray slicing as used b
            "correspondence); ODVariable.encode_raw is the C04 model (Model/Codec.v)",
            "harness/ref/sdo_ref_client.py (Python reference client / response rules), tied to Model/RefClient.v by running both "
            "against implementation and model on the same cases"]
-ASSUMPTIONS = ["application callbacks do not raise and do not keep references to the bytearray they are given",
+ASSUMPTIONS = ["the Coq model has no raising callbacks: cases with callbacks that refuse (raise SdoAbortedError / fail), that peek into data_store, or with run-time changes of default / parameter value are run through implementation + oracle only (model: False); callbacks do not keep references to the bytearray they are given",
                "frames have 1..8 bytes (a CAN frame with DLC 0 makes on_request raise struct.error: outside the property's quantifier, "
                "modelled and reported in notes/C02.md)",
                "the NMT write callback that LocalNode registers for 0x1017 is not modelled: generated dictionaries do not contain 0x1017",
@@ -943,6 +945,9 @@ def shrink(c):
     if len(c["dict"]) > 1:
         for i in range(len(c["dict"])):
             yield dict(c, dict=c["dict"][:i] + c["dict"][i + 1:])
+    if len(c.get("wcb", [])) > 1:
+        for i in range(len(c["wcb"])):
+            yield dict(c, wcb=c["wcb"][:i] + c["wcb"][i + 1:])
     if c["rcb"]:
         yield dict(c, rcb=[])
     if c["store"]:
